@@ -266,6 +266,104 @@ pub fn inputs(tier: &str, seed: u64, mut f: impl FnMut(&[u8], &str)) {
         let text = lines.join("\n") + "\n";
         f(text.as_bytes(), "large-sliders");
     }
+    // 3c. tiny Catmull sliders in osu! / catch maps.  In osu! mode a Catmull segment is thinned
+    // and the removed length is carried as a "surplus" (sum of differences of rounded f32
+    // distances) that seeds the cumulative lengths; the encoder hands the curve's distance to
+    // SliderEventsIter::new, which panics on a negative one (finding D18).  The shapes here are
+    // the ones where rounding can make the surplus negative or the total tiny: points within a
+    // few pixels, collinear / diagonal / back-tracking / repeated points, a tiny Catmull part
+    // after a zero-length or tiny linear / Bezier part, several Catmull segments in one path,
+    // far-away positions (large magnitude, tiny steps), with and without a requested length.
+    for i in 0..150 * scale {
+        let mode = if i % 3 == 2 { 2 } else { 0 };
+        let version = *r.pick(&[14i64, 7, 3, 9, 128]);
+        let mut lines: Vec<String> = vec![
+            format!("osu file format v{}", version),
+            "[General]".into(),
+            format!("Mode: {}", mode),
+            "[Difficulty]".into(),
+            format!("SliderMultiplier:{}", r.pick(&["0.4", "1.4", "3.6", "1"])),
+            format!("SliderTickRate:{}", r.pick(&["0.5", "1", "2", "8"])),
+            "[TimingPoints]".into(),
+            "0,500,4,1,0,100,1,0".into(),
+            format!("0,{},4,1,0,100,0,0", r.pick(&["-100", "-10", "-1000", "-50"])),
+            "[HitObjects]".into(),
+        ];
+        let n = r.range(1, 5);
+        let mut t = 1000;
+        for _ in 0..n {
+            let (x0, y0) = if r.chance(1, 4) { (r.range(-131072, 131072), r.range(-131072, 131072)) } else { (r.range(0, 512), r.range(0, 384)) };
+            let span = *r.pick(&[1i64, 1, 2, 3, 6, 7, 40]);
+            let k = r.range(1, 6);
+            let (dx, dy) = (r.range(-span, span), r.range(-span, span));
+            let mut pts: Vec<(i64, i64)> = Vec::new();
+            let (mut x, mut y) = (x0, y0);
+            for j in 0..k {
+                match r.below(5) {
+                    0 => { x += dx; y += dy; }                     // collinear steps
+                    1 => { x -= dx; y -= dy; }                     // back-tracking
+                    2 => {}                                         // repeated point
+                    3 => { x = x0; y = y0; }                       // back to the head
+                    _ => { x += r.range(-span, span); y += r.range(-span, span); }
+                }
+                let _ = j;
+                pts.push((x, y));
+            }
+            let body: Vec<String> = pts.iter().map(|(a, b)| format!("{}:{}", a, b)).collect();
+            let lead = match r.below(6) {
+                0 => format!("L|{}:{}|", x0, y0),                   // zero-length linear part first
+                1 => format!("L|{}:{}|{}:{}|", x0 + 1, y0, x0 + 1, y0), // tiny linear part, joint
+                2 => format!("B|{}:{}|{}:{}|{}:{}|", x0, y0 + 1, x0 + 1, y0 + 1, x0 + 1, y0 + 1),
+                _ => String::new(),
+            };
+            let mid = if pts.len() >= 3 && r.chance(1, 3) {
+                // a second Catmull segment: repeat a point (segment joint) or restate the type
+                let h = pts.len() / 2;
+                let a: Vec<String> = pts[..h].iter().map(|(a, b)| format!("{}:{}", a, b)).collect();
+                let b: Vec<String> = pts[h..].iter().map(|(a, b)| format!("{}:{}", a, b)).collect();
+                format!("C|{}|C|{}", a.join("|"), b.join("|"))
+            } else {
+                format!("C|{}", body.join("|"))
+            };
+            let len = *r.pick(&["", "", ",1", ",1,0.5", ",2,1e-9", ",3,0.0000001", ",1,7", ",9000,3"]);
+            let len = if len.is_empty() { ",1" } else { len };
+            lines.push(format!("{},{},{},2,0,{}{}{}", x0, y0, t, lead, mid, len));
+            t += 300;
+        }
+        let text = lines.join("\n") + "\n";
+        f(text.as_bytes(), "tiny-catmull");
+    }
+    // 3d. tick-dense sliders: the slider-event iterator of collect_samples runs about
+    // span_count * length / tick_distance steps; the decoder's clamps allow a tick distance as
+    // small as 0.5 (slider velocity 0.1 with format >= 8, or 10 with format < 8 in catch) and a
+    // length up to 100000 (MAX_LEN).  Span counts are kept small here (the cost is linear in
+    // them: 9000 repeats would be ~16 s of legitimate work per line, beyond the watchdog).
+    for i in 0..40 * scale {
+        let mode = if i % 2 == 0 { 0 } else { 2 };
+        let version = *r.pick(&[14i64, 7, 8, 5]);
+        let inh = *r.pick(&["-1000", "-10", "-100", "-2000", "-1"]);
+        let mut lines: Vec<String> = vec![
+            format!("osu file format v{}", version),
+            "[General]".into(),
+            format!("Mode: {}", mode),
+            "[Difficulty]".into(),
+            "SliderMultiplier:0.4".into(),
+            format!("SliderTickRate:{}", r.pick(&["8", "4", "100", "0.5"])),
+            "[TimingPoints]".into(),
+            format!("0,{},4,1,0,100,1,0", r.pick(&["500", "6", "60000", "0.001", "1e9"])),
+            format!("0,{},4,1,0,100,0,0", inh),
+            "[HitObjects]".into(),
+        ];
+        let n = r.range(1, 3);
+        for j in 0..n {
+            let reps = r.range(1, 12);
+            let len = *r.pick(&["100000", "131072", "50000", "99999.5", "1e5"]);
+            let path = *r.pick(&["L|1:0", "L|300:0", "B|100:100|200:0", "C|50:50|100:0"]);
+            lines.push(format!("0,0,{},2,0,{},{},{}", 1000 * j, path, reps, len));
+        }
+        let text = lines.join("\n") + "\n";
+        f(text.as_bytes(), "tick-dense");
+    }
     // 4. BOM / UTF-16 variants incl. odd tails and truncated code units
     for i in 0..60 * scale {
         let o = Opts { level: 1, max_objects: 5, ..Opts::default() };
